@@ -2,42 +2,47 @@
     Statements only (closed by [exact]); proofs are in proofs/NumFacts.v (pure Z, generic in the
     format record under the boolean side condition [fmt_ok], which is discharged by computation on
     the REGENERATED constants F32 / F64 of gen/Consts.v) and proofs/NumFactsFlocq.v (agreement
-    with Flocq's own IEEE-754 decoder and real value). *)
+    with Flocq's own IEEE-754 decoder and real value).
+    SOURCE TIE (tools/rs2coq): the functions named below are ALSO regenerated from the Rust source on every
+    run by a syn-based translator (coq/gen/Src.v) and proved EQUAL to the hand-written model functions the
+    theorems above are about ([rs_*_eq], proofs/SrcEquiv*.v) - for all inputs and both build modes; a change to
+    that Rust code changes the generated file and breaks these equalities.
+    Here: is_denormal, exponent, mantissa (num.rs default methods); extended_to_float (extended_float.rs); b, bh (slow.rs). *)
 
 From Coq Require Import ZArith List Bool Reals.
 From Coq Require Import Floats.SpecFloat.
 From Flocq Require Import Core.Core IEEE754.BinarySingleNaN IEEE754.Bits.
-From ML Require Import base.RustSem model.Fmt model.Num model.FloatOps model.Slow gen.Consts proofs.NumFacts proofs.NumFactsFlocq.
+From ML Require Import base.RustSem model.Fmt model.Num model.FloatOps model.Slow gen.Consts proofs.NumFacts proofs.NumFactsFlocq gen.Src proofs.SrcEquiv proofs.SrcEquiv2.
 
 Open Scope Z_scope.
 
 Theorem C17_F32_ok :
-  fmt_ok F32 = true.
+  NumFacts.fmt_ok F32 = true.
 Proof. exact F32_ok. Qed.
 
 Theorem C17_F64_ok :
-  fmt_ok F64 = true.
+  NumFacts.fmt_ok F64 = true.
 Proof. exact F64_ok. Qed.
 
 Theorem C17_is_denormal_spec :
   forall f : format,
-         fmt_ok f = true ->
+         NumFacts.fmt_ok f = true ->
          forall x : Z, is_denormal f x = true <-> (x / 2 ^ MANTISSA_SIZE f) mod 2 ^ ewidth f = 0.
 Proof. exact is_denormal_spec. Qed.
 
 Theorem C17_float_exponent_spec :
   forall f : format,
-         fmt_ok f = true -> forall (b : build) (x : Z), float_exponent f b x = Ok (dec_exp f x).
+         NumFacts.fmt_ok f = true -> forall (b : build) (x : Z), float_exponent f b x = Ok (dec_exp f x).
 Proof. exact float_exponent_spec. Qed.
 
 Theorem C17_float_mantissa_spec :
   forall f : format,
-         fmt_ok f = true -> forall (b : build) (x : Z), float_mantissa f b x = Ok (dec_mant f x).
+         NumFacts.fmt_ok f = true -> forall (b : build) (x : Z), float_mantissa f b x = Ok (dec_mant f x).
 Proof. exact float_mantissa_spec. Qed.
 
 Theorem C17_decompose_value :
   forall f : format,
-         fmt_ok f = true ->
+         NumFacts.fmt_ok f = true ->
          forall x : Z,
          0 <= x < 2 ^ (fbits f - 1) ->
          is_finite_bits f x = true ->
@@ -49,7 +54,7 @@ Proof. exact decompose_value. Qed.
 
 Theorem C17_decompose_value_neg :
   forall f : format,
-         fmt_ok f = true ->
+         NumFacts.fmt_ok f = true ->
          forall x : Z,
          2 ^ (fbits f - 1) <= x < 2 ^ fbits f ->
          is_finite_bits f x = true ->
@@ -61,20 +66,20 @@ Proof. exact decompose_value_neg. Qed.
 
 Theorem C17_bits_roundtrip :
   forall f : format,
-         fmt_ok f = true ->
+         NumFacts.fmt_ok f = true ->
          forall x : Z, 0 <= x < 2 ^ fbits f -> is_nan_bits f x = false -> bits_of_sf f (sf_of_bits f x) = x.
 Proof. exact bits_roundtrip. Qed.
 
 Theorem C17_bits_roundtrip_nan :
   forall f : format,
-         fmt_ok f = true ->
+         NumFacts.fmt_ok f = true ->
          forall x : Z,
          0 <= x < 2 ^ fbits f -> is_nan_bits f x = true -> bits_of_sf f (sf_of_bits f x) = canonical_nan f.
 Proof. exact bits_roundtrip_nan. Qed.
 
 Theorem C17_sf_roundtrip :
   forall f : format,
-         fmt_ok f = true ->
+         NumFacts.fmt_ok f = true ->
          forall s : spec_float,
          valid_binary (prec f) (emax f) s = true ->
          sf_of_bits f (bits_of_sf f s) = s /\ 0 <= bits_of_sf f s < 2 ^ fbits f.
@@ -91,7 +96,7 @@ Proof. exact from_bits_wide. Qed.
 
 Theorem C17_pack_spec :
   forall f : format,
-         fmt_ok f = true ->
+         NumFacts.fmt_ok f = true ->
          forall (b : build) (e m : Z),
          0 <= e < 2 ^ ewidth f ->
          0 <= m < 2 ^ MANTISSA_SIZE f ->
@@ -102,7 +107,7 @@ Proof. exact pack_spec. Qed.
 
 Theorem C17_pack_overlap_spec :
   forall f : format,
-         fmt_ok f = true ->
+         NumFacts.fmt_ok f = true ->
          forall (b : build) (r : Z),
          0 <= r < 2 ^ MANTISSA_SIZE f ->
          extended_to_float f b {| mant := 2 ^ MANTISSA_SIZE f + r; exp := 1 |} = Ok (2 ^ MANTISSA_SIZE f + r) /\
@@ -111,7 +116,7 @@ Proof. exact pack_overlap_spec. Qed.
 
 Theorem C17_pack_infinity :
   forall f : format,
-         fmt_ok f = true ->
+         NumFacts.fmt_ok f = true ->
          forall b : build,
          extended_to_float f b {| mant := 0; exp := INFINITE_POWER f |} = Ok (EXPONENT_MASK f) /\
          sf_of_bits f (EXPONENT_MASK f) = S754_infinity false.
@@ -119,20 +124,20 @@ Proof. exact pack_infinity. Qed.
 
 Theorem C17_float_b_spec :
   forall f : format,
-         fmt_ok f = true ->
+         NumFacts.fmt_ok f = true ->
          forall (b : build) (x : Z), float_b f b x = Ok {| mant := dec_mant f x; exp := dec_exp f x |}.
 Proof. exact float_b_spec. Qed.
 
 Theorem C17_float_bh_spec :
   forall f : format,
-         fmt_ok f = true ->
+         NumFacts.fmt_ok f = true ->
          forall (b : build) (x : Z),
          float_bh f b x = Ok {| mant := 2 * dec_mant f x + 1; exp := dec_exp f x - 1 |}.
 Proof. exact float_bh_spec. Qed.
 
 Theorem C17_bits_order :
   forall f : format,
-         fmt_ok f = true ->
+         NumFacts.fmt_ok f = true ->
          forall x y : Z,
          0 <= x < 2 ^ (fbits f - 1) ->
          0 <= y < 2 ^ (fbits f - 1) -> (x <= y <-> sval f x <= sval f y) /\ (x < y <-> sval f x < sval f y).
@@ -140,7 +145,7 @@ Proof. exact bits_order. Qed.
 
 Theorem C17_finite_iff_below_infinity :
   forall f : format,
-         fmt_ok f = true ->
+         NumFacts.fmt_ok f = true ->
          forall x : Z,
          0 <= x < 2 ^ (fbits f - 1) ->
          (is_finite_bits f x = true <-> x < EXPONENT_MASK f) /\
@@ -149,7 +154,7 @@ Proof. exact finite_iff_below_infinity. Qed.
 
 Theorem C17_float_helpers_ieee :
   forall f : format,
-         fmt_ok f = true ->
+         NumFacts.fmt_ok f = true ->
          forall (b : build) (x : Z),
          0 <= x < 2 ^ fbits f ->
          is_denormal f x = (exp_field f x =? 0) /\
@@ -163,7 +168,7 @@ Proof. exact float_helpers_ieee. Qed.
 
 Theorem C17_flocq_decoder_agrees :
   forall f : format,
-         fmt_ok f = true ->
+         NumFacts.fmt_ok f = true ->
          forall x : Z,
          0 <= x < 2 ^ fbits f ->
          Binary.FF2SF (binary_float_of_bits_aux (MANTISSA_SIZE f) (ewidth f) x) = sf_of_bits f x.
@@ -193,6 +198,30 @@ Theorem C17_f32_flocq_real_value :
          @F2R radix2 {| Fnum := cond_Zopp (sign_bit F32 x) (dec_mant F32 x); Fexp := dec_exp F32 x |}.
 Proof. exact f32_flocq_real_value. Qed.
 
+Theorem C17_rs_is_denormal_eq :
+  forall (f : format) (b : build) (x : Z), rs_is_denormal f b x = Ok (is_denormal f x).
+Proof. exact rs_is_denormal_eq. Qed.
+
+Theorem C17_rs_exponent_eq :
+  forall (f : format) (b : build) (x : Z), rs_exponent f b x = float_exponent f b x.
+Proof. exact rs_exponent_eq. Qed.
+
+Theorem C17_rs_mantissa_eq :
+  forall (f : format) (b : build) (x : Z), rs_mantissa f b x = float_mantissa f b x.
+Proof. exact rs_mantissa_eq. Qed.
+
+Theorem C17_rs_extended_to_float_eq :
+  forall (f : format) (b : build) (x : extfloat), rs_extended_to_float f b x = extended_to_float f b x.
+Proof. exact rs_extended_to_float_eq. Qed.
+
+Theorem C17_rs_b_eq :
+  forall (f : format) (b : build) (x : Z), rs_b f b x = float_b f b x.
+Proof. exact rs_b_eq. Qed.
+
+Theorem C17_rs_bh_eq :
+  forall (f : format) (b : build) (x : Z), rs_bh f b x = float_bh f b x.
+Proof. exact rs_bh_eq. Qed.
+
 
 Print Assumptions C17_F32_ok.
 Print Assumptions C17_F64_ok.
@@ -219,3 +248,9 @@ Print Assumptions C17_f64_flocq_of_bits.
 Print Assumptions C17_f32_flocq_of_bits.
 Print Assumptions C17_f64_flocq_real_value.
 Print Assumptions C17_f32_flocq_real_value.
+Print Assumptions C17_rs_is_denormal_eq.
+Print Assumptions C17_rs_exponent_eq.
+Print Assumptions C17_rs_mantissa_eq.
+Print Assumptions C17_rs_extended_to_float_eq.
+Print Assumptions C17_rs_b_eq.
+Print Assumptions C17_rs_bh_eq.
